@@ -136,6 +136,16 @@ entry("cbc_decrypt_md5", "C08_cbc.c", CBC + MD5, ["cbc_decrypt", "br_md5_vtable"
       desc="cbc_decrypt + br_hmac_* + br_md5 (all IR), stand-in block cipher",
       secret="all record bytes, cipher key, MAC key states", public="record length, explicit-IV flag, mac_len, seq/type/version, addresses; accept/reject declassified")
 
+# (e) RSA padding checks
+entry("rsa_ssl_decrypt", "C08_rsa.c", ["src/rsa/rsa_ssl_decrypt.c"], ["br_rsa_ssl_decrypt"],
+      [S("L64", 70, FN=1, LEN=64), S("L128", 140, FN=1, LEN=128, tier="thorough")], quick_opts=OPTS,
+      desc="br_rsa_ssl_decrypt (padding check; modular exponentiation core = stand-in)",
+      secret="the decrypted block, the core's status bit", public="modulus length, addresses")
+entry("rsa_oaep_unpad", "C08_rsa.c", ["src/rsa/rsa_oaep_unpad.c", "src/hash/mgf1.c"] + SHA1, ["br_rsa_oaep_unpad", "br_sha1_vtable"],
+      [S("k50", 70, FN=2, LEN=50), S("k64", 80, FN=2, LEN=64, tier="thorough")],
+      desc="br_rsa_oaep_unpad + br_mgf1_xor + br_sha1 (all IR)",
+      secret="the encoded message (seed, DB)", public="k, label, addresses; validity and message length declassified (documented)")
+
 # ---------------------------------------------------------------------------
 # generation + translation validation
 # ---------------------------------------------------------------------------
